@@ -40,6 +40,7 @@ type execReport struct {
 	Violations []Violation `json:"violations"`
 	Hashes     []string    `json:"hashes"`
 	Trace      []string    `json:"trace,omitempty"`
+	Story      []string    `json:"story,omitempty"`
 	Race       bool        `json:"race_build"`
 	RaceErrors int         `json:"race_errors"`
 }
@@ -547,6 +548,7 @@ func cmdExec(args []string) {
 			}
 			rep.Violations = append(rep.Violations, viol...)
 			rep.Trace = res.Trace
+			rep.Story = res.Story
 		}
 	}
 	rep.RaceErrors = rt.RaceErrors()
